@@ -264,7 +264,7 @@ def channels(ctx):
         "at least one read/peek and >= 2 kinds of operation; distinct by full case"))
     rng = ctx.rng("bufreader")
     cases = corpus_cases()
-    n = ctx.scale(3000, 60000)
+    n = ctx.scale(3000, 300000)
     cases += [gen_case(rng, ctx.thorough) for _ in range(n)]
     evaluate(cases, ch)
     yield ch
